@@ -789,6 +789,11 @@ func (fr *Frame) execSelect(st *State, x *ssa.Select) *Val {
 				fr.c.trusted["ASSUMED in "+shortFn(fr.fn.RelString(nil))+": values received from channels hold non-nil pointers / interfaces (opt recv_nonnil)"] = true
 			}
 		}
+		if fr.contract != nil && fr.contract.Opts["recv_nonnil"] == "yes" && v.K == VIface {
+			// same assumption for interface values received in a select (e.g. the error a closer pushed)
+			fr.c.addFact(st, Implies(Eq(idx, Num(int64(i-2))), Neq(v.Tag, Num(0))))
+			fr.c.trusted["ASSUMED in "+shortFn(fr.fn.RelString(nil))+": values received from channels hold non-nil pointers / interfaces (opt recv_nonnil)"] = true
+		}
 		vals = append(vals, v)
 	}
 	return &Val{K: VTuple, T: tt, Fs: vals}
